@@ -39,6 +39,7 @@ structure Basic (cfg : Cfg) (s : St) : Prop where
   closed_iff : s.srcClosed = true ↔ (s.cons = .close1 ∨ s.cons = .close2 ∨ s.cons = .ret)
   stopped_cons : s.stopped = true → s.res ≠ none
   drained_done : s.drained = true → s.prod = .done ∧ s.res ≠ none
+  closes_eq : s.closes = if s.srcClosed then 1 else 0
 
 theorem basic_init (cfg : Cfg) : Basic cfg (init cfg) := by
   constructor <;> simp [init, St.ctx1, St.pctx]
@@ -46,7 +47,7 @@ theorem basic_init (cfg : Cfg) : Basic cfg (init cfg) := by
 set_option maxHeartbeats 2000000 in
 theorem basic_step {cfg : Cfg} {s s' : St} {l : Label} (h : Basic cfg s) (hs : step cfg s l = some s') :
     Basic cfg s' := by
-  obtain ⟨h1, h2, h3, h4, h5, h6, h7, h8, h9, h10, h11, h12, h13, h14, h15, h16, h17, h18, h19, h20, h21⟩ := h
+  obtain ⟨h1, h2, h3, h4, h5, h6, h7, h8, h9, h10, h11, h12, h13, h14, h15, h16, h17, h18, h19, h20, h21, h22⟩ := h
   step_cases hs <;>
     (constructor <;> (try (simp_all [List.length_erase_of_mem, St.ctx1, St.pctx])) <;> (try grind [List.length_pos_of_mem]))
 
